@@ -167,7 +167,7 @@ fn binary_search(cws: &[f64], r: f64) -> usize {
     let mut right: usize = cws.len();
     while left < right {
         let mid = (left + right) / 2;
-        if cws[mid] < r {
+        if cws[mid] <= r {
             left = mid + 1;
         } else {
             right = mid;
